@@ -1,9 +1,745 @@
 import NxModel.Nex.RmcClient
+/-! proofs about the RMC client call-matching model: the implementation refines the per-call spec -/
 namespace Nx.RmcClient
 open Nx Nx.Rmc
+
+/-! ## dictionary lemmas -/
+section dict
+variable {α : Type}
+
+@[simp] theorem dlookup_derase_self (k : Nat) (d : List (Nat × α)) : dlookup k (derase k d) = none := by
+  induction d with
+  | nil => rfl
+  | cons p r ih =>
+    obtain ⟨k', v⟩ := p
+    by_cases h : k' = k <;> simp [derase, dlookup, h, ih]
+
+theorem dlookup_derase_ne {k k' : Nat} (h : k' ≠ k) (d : List (Nat × α)) : dlookup k' (derase k d) = dlookup k' d := by
+  induction d with
+  | nil => rfl
+  | cons p r ih =>
+    obtain ⟨k'', v⟩ := p
+    by_cases h1 : k'' = k
+    · have : k'' ≠ k' := by omega
+      simp [derase, dlookup, h1, ih]; intro e; omega
+    · by_cases h2 : k'' = k' <;> simp [derase, dlookup, h1, h2, ih, h]
+
+@[simp] theorem dlookup_dset_self (k : Nat) (v : α) (d : List (Nat × α)) : dlookup k (dset k v d) = some v := by
+  simp [dset, dlookup]
+
+theorem dlookup_dset_ne {k k' : Nat} (h : k' ≠ k) (v : α) (d : List (Nat × α)) :
+    dlookup k' (dset k v d) = dlookup k' d := by
+  have : k ≠ k' := fun e => h e.symm
+  simp [dset, dlookup, this, dlookup_derase_ne h]
+
+theorem mem_derase {k : Nat} {d : List (Nat × α)} {p : Nat × α} (h : p ∈ derase k d) : p ∈ d := by
+  induction d with
+  | nil => simp [derase] at h
+  | cons q r ih =>
+    obtain ⟨k', v⟩ := q
+    by_cases h1 : k' = k
+    · simp [derase, h1] at h; exact List.mem_cons_of_mem _ (ih h)
+    · simp [derase, h1] at h
+      rcases h with h | h
+      · simp [h]
+      · exact List.mem_cons_of_mem _ (ih h)
+
+theorem mem_of_dlookup {k : Nat} {d : List (Nat × α)} {v : α} (h : dlookup k d = some v) : (k, v) ∈ d := by
+  induction d with
+  | nil => simp [dlookup] at h
+  | cons q r ih =>
+    obtain ⟨k', v'⟩ := q
+    by_cases h1 : k' = k
+    · simp [dlookup, h1] at h; simp [h1, h]
+    · simp [dlookup, h1] at h; exact List.mem_cons_of_mem _ (ih h)
+
+end dict
+
+/-! ## frames of the implementation = calls of the spec -/
+def proj (c : SCall) : Nat × Nat := (c.task, c.id)
+
+theorem dlookup_proj (t : Nat) (l : List SCall) : dlookup t (l.map proj) = (sfind t l).map (·.id) := by
+  induction l with
+  | nil => rfl
+  | cons c r ih => by_cases h : c.task = t <;> simp [dlookup, sfind, proj, h] <;> simpa [proj] using ih
+
+theorem derase_proj (t : Nat) (l : List SCall) : derase t (l.map proj) = (l.filter (·.task ≠ t)).map proj := by
+  induction l with
+  | nil => rfl
+  | cons c r ih => by_cases h : c.task = t <;> simp [derase, proj, h] <;> simpa [proj] using ih
+
+theorem sfind_some {t : Nat} {l : List SCall} {c : SCall} (h : sfind t l = some c) : c ∈ l ∧ c.task = t := by
+  induction l with
+  | nil => simp [sfind] at h
+  | cons a r ih =>
+    by_cases h1 : a.task = t
+    · simp [sfind, h1] at h; subst h; simp [h1]
+    · simp [sfind, h1] at h; have := ih h; simp [this]
+
+theorem sfind_none {t : Nat} {l : List SCall} (h : sfind t l = none) : ∀ c ∈ l, c.task ≠ t := by
+  induction l with
+  | nil => simp
+  | cons a r ih =>
+    by_cases h1 : a.task = t
+    · simp [sfind, h1] at h
+    · simp [sfind, h1] at h; intro c hc; rcases List.mem_cons.mp hc with rfl | hc
+      · exact h1
+      · exact ih h c hc
+
+/-- the spec's reaction to a response -/
+def upd (m : Msg) (c : SCall) : SCall := if c.id = m.callId ∧ c.resp = none then { c with resp := some m } else c
+
+@[simp] theorem upd_task (m : Msg) (c : SCall) : (upd m c).task = c.task := by unfold upd; split <;> rfl
+@[simp] theorem upd_id (m : Msg) (c : SCall) : (upd m c).id = c.id := by unfold upd; split <;> rfl
+@[simp] theorem proj_upd (m : Msg) (c : SCall) : proj (upd m c) = proj c := by simp [proj]
+
+theorem map_proj_upd (m : Msg) (l : List SCall) : (l.map (upd m)).map proj = l.map proj := by
+  simp [List.map_map, Function.comp_def]
+
+/-! ## the simulation relation -/
+structure Base (s : State) (a : CallSpec) : Prop where
+  nextId : s.nextId = a.nextId
+  nextTask : s.nextTask = a.nextTask
+  closed : s.closed = a.closed
+  frames : s.frames = a.calls.map proj
+
+/-- holds as long as the connection is open -/
+structure Open (s : State) (a : CallSpec) : Prop where
+  tasksLt : ∀ c ∈ a.calls, c.task < a.nextTask
+  firedLt : ∀ t ∈ s.fired, t < a.nextTask
+  reqsLt : ∀ p ∈ s.requests, p.2 < a.nextTask
+  tasksInj : ∀ c1 ∈ a.calls, ∀ c2 ∈ a.calls, c1.task = c2.task → c1 = c2
+  idsInj : ∀ c1 ∈ a.calls, ∀ c2 ∈ a.calls, c1.id = c2.id → c1 = c2
+  pending : ∀ c ∈ a.calls, c.resp = none → dlookup c.id s.requests = some c.task ∧ c.task ∉ s.fired
+  answered : ∀ c ∈ a.calls, ∀ m, c.resp = some m →
+    dlookup c.id s.responses = some m ∧ dlookup c.id s.requests = none ∧ c.task ∈ s.fired
+  reqs : ∀ i t, dlookup i s.requests = some t → ∃ c ∈ a.calls, c.id = i ∧ c.task = t ∧ c.resp = none
+
+structure Rel (s : State) (a : CallSpec) : Prop where
+  base : Base s a
+  opn : s.closed = false → Open s a
+  cls : s.closed = true → ∀ c ∈ a.calls, c.task ∈ s.fired
+
+theorem rel_init (n : Nat) : Rel { init with nextId := n } { CallSpec.init with nextId := n } := by
+  refine ⟨⟨rfl, rfl, rfl, rfl⟩, fun _ => ?_, fun h => by simp [init] at h⟩
+  constructor <;> simp [init, CallSpec.init, dlookup]
+
+def obs (l : List Out) : List Out := l.filter Out.observable
+
+/-- the fresh id of a registering call differs from the ids of all outstanding calls -/
+def FreshId (s : State) : Op → Prop
+  | .call false => s.closed = false → ∀ p ∈ s.frames, p.2 ≠ s.nextId
+  | _ => True
+
+theorem freshId_of_distinctLive (s : State) (op : Op) (ops : List Op) (h : distinctLive s (op :: ops) = true) :
+    FreshId s op ∧ distinctLive (step s op).1 ops = true := by
+  simp only [distinctLive, Bool.and_eq_true] at h
+  refine ⟨?_, h.2⟩
+  cases op with
+  | call nr =>
+    cases nr with
+    | true => trivial
+    | false =>
+      intro hc p hp
+      have h1 := h.1
+      simp only [hc, Bool.false_or, Bool.not_eq_true', List.contains_eq_mem, decide_eq_false_iff_not] at h1
+      intro e
+      exact h1 (List.mem_map.mpr ⟨p, hp, e⟩)
+  | _ => trivial
+
+/-! ### closed connection: every op keeps `Base`, `closed` and "every outstanding call's event is set" -/
+theorem step_closed {s : State} {a : CallSpec} (hb : Base s a) (hc : s.closed = true)
+    (hf : ∀ c ∈ a.calls, c.task ∈ s.fired) (op : Op) :
+    Rel (step s op).1 (CallSpec.step a op).1 ∧ obs (step s op).2 = (CallSpec.step a op).2 := by
+  have hca : a.closed = true := by rw [← hb.closed]; exact hc
+  cases op with
+  | call nr =>
+    simp only [step, CallSpec.step, hc, hca, if_true, hb.nextTask]
+    exact ⟨⟨⟨hb.nextId, rfl, rfl, hb.frames⟩, fun h => by simp at h, fun _ => hf⟩, by simp [obs, Out.observable]⟩
+  | recvResponse m =>
+    simp only [step, CallSpec.step]
+    cases hl : dlookup m.callId s.requests with
+    | none =>
+      refine ⟨⟨⟨hb.nextId, hb.nextTask, hb.closed, ?_⟩, fun h => by simp [hc] at h, ?_⟩, by simp [obs, Out.observable]⟩
+      · show s.frames = (a.calls.map _).map proj
+        rw [hb.frames]; exact (map_proj_upd m a.calls).symm
+      · intro _ c hcm
+        obtain ⟨c0, hc0, rfl⟩ := List.mem_map.mp hcm
+        have := hf c0 hc0
+        show (if c0.id = m.callId ∧ c0.resp = none then { c0 with resp := some m } else c0).task ∈ s.fired
+        split <;> exact this
+    | some t =>
+      refine ⟨⟨⟨hb.nextId, hb.nextTask, hb.closed, ?_⟩, fun h => by simp [hc] at h, ?_⟩, by simp [obs, Out.observable]⟩
+      · show s.frames = (a.calls.map _).map proj
+        rw [hb.frames]; exact (map_proj_upd m a.calls).symm
+      · intro _ c hcm
+        obtain ⟨c0, hc0, rfl⟩ := List.mem_map.mp hcm
+        have := hf c0 hc0
+        show (if c0.id = m.callId ∧ c0.resp = none then { c0 with resp := some m } else c0).task ∈ t :: s.fired
+        split <;> exact List.mem_cons_of_mem _ this
+  | recvRequest =>
+    exact ⟨⟨hb, fun h => by simp [step, hc] at h, fun _ => hf⟩, by simp [step, CallSpec.step, obs]⟩
+  | eof =>
+    have : ({ a with closed := true } : CallSpec) = a := by cases a; simp_all
+    simp only [step, doCleanup, hc, if_true, CallSpec.step, this]
+    exact ⟨⟨hb, fun h => by simp [hc] at h, fun _ => hf⟩, by simp [obs]⟩
+  | cleanup =>
+    have : ({ a with closed := true } : CallSpec) = a := by cases a; simp_all
+    simp only [step, doCleanup, hc, if_true, CallSpec.step, this]
+    exact ⟨⟨hb, fun h => by simp [hc] at h, fun _ => hf⟩, by simp [obs]⟩
+  | wake t =>
+    simp only [step, CallSpec.step]
+    rw [hb.frames, dlookup_proj]
+    cases hs : sfind t a.calls with
+    | none =>
+      simp only [Option.map_none]
+      exact ⟨⟨hb, fun h => by simp [hc] at h, fun _ => hf⟩, by simp [obs, Out.observable]⟩
+    | some c =>
+      obtain ⟨hcm, hct⟩ := sfind_some hs
+      have htf : t ∈ s.fired := hct ▸ hf c hcm
+      simp only [Option.map_some, htf, if_true, hc, hca]
+      refine ⟨⟨⟨hb.nextId, hb.nextTask, rfl, derase_proj t a.calls⟩, fun h => by simp at h, ?_⟩, by simp [obs, Out.observable]⟩
+      · intro _ c' hc'
+        exact hf c' (List.mem_filter.mp hc').1
+
+/-! ### open connection -/
+theorem step_open_call_noresp {s : State} {a : CallSpec} (hb : Base s a) (hc : s.closed = false) (ho : Open s a) :
+    Rel (step s (.call true)).1 (CallSpec.step a (.call true)).1 ∧
+      obs (step s (.call true)).2 = (CallSpec.step a (.call true)).2 := by
+  have hca : a.closed = false := by rw [← hb.closed]; exact hc
+  simp only [step, CallSpec.step, hc, hca, Bool.false_eq_true, if_false, if_true, hb.nextTask, hb.nextId]
+  refine ⟨⟨⟨rfl, rfl, rfl, hb.frames⟩, fun _ => ?_, fun h => by simp at h⟩, by simp [obs, Out.observable]⟩
+  exact { tasksLt := fun c h => Nat.lt_succ_of_lt (ho.tasksLt c h)
+          firedLt := fun t h => Nat.lt_succ_of_lt (ho.firedLt t h)
+          reqsLt := fun p h => Nat.lt_succ_of_lt (ho.reqsLt p h)
+          tasksInj := ho.tasksInj, idsInj := ho.idsInj, pending := ho.pending, answered := ho.answered, reqs := ho.reqs }
+
+theorem step_open_call {s : State} {a : CallSpec} (hb : Base s a) (hc : s.closed = false) (ho : Open s a)
+    (hfresh : ∀ p ∈ s.frames, p.2 ≠ s.nextId) :
+    Rel (step s (.call false)).1 (CallSpec.step a (.call false)).1 ∧
+      obs (step s (.call false)).2 = (CallSpec.step a (.call false)).2 := by
+  have hca : a.closed = false := by rw [← hb.closed]; exact hc
+  have hfr : ∀ c ∈ a.calls, c.id ≠ a.nextId := by
+    intro c hcm
+    have := hfresh (proj c) (by rw [hb.frames]; exact List.mem_map.mpr ⟨c, hcm, rfl⟩)
+    rw [hb.nextId] at this; exact this
+  simp only [step, CallSpec.step, hc, hca, Bool.false_eq_true, if_false, hb.nextTask, hb.nextId]
+  refine ⟨⟨⟨rfl, rfl, rfl, ?_⟩, fun _ => ?_, fun h => by simp at h⟩, by simp [obs, Out.observable]⟩
+  · simp [hb.frames, proj]
+  · constructor
+    · intro c h
+      rcases List.mem_cons.mp h with rfl | h
+      · exact Nat.lt_succ_self _
+      · exact Nat.lt_succ_of_lt (ho.tasksLt c h)
+    · exact fun t h => Nat.lt_succ_of_lt (ho.firedLt t h)
+    · intro p h
+      rcases List.mem_cons.mp h with rfl | h
+      · exact Nat.lt_succ_self _
+      · exact Nat.lt_succ_of_lt (ho.reqsLt p (mem_derase h))
+    · intro c1 h1 c2 h2 e
+      rcases List.mem_cons.mp h1 with rfl | h1 <;> rcases List.mem_cons.mp h2 with rfl | h2
+      · rfl
+      · have := ho.tasksLt c2 h2; simp at e; omega
+      · have := ho.tasksLt c1 h1; simp at e; omega
+      · exact ho.tasksInj c1 h1 c2 h2 e
+    · intro c1 h1 c2 h2 e
+      rcases List.mem_cons.mp h1 with rfl | h1 <;> rcases List.mem_cons.mp h2 with rfl | h2
+      · rfl
+      · exact absurd e.symm (hfr c2 h2)
+      · exact absurd e (hfr c1 h1)
+      · exact ho.idsInj c1 h1 c2 h2 e
+    · intro c h hr
+      rcases List.mem_cons.mp h with rfl | h
+      · refine ⟨by simp, fun hm => ?_⟩
+        have := ho.firedLt _ hm; simp at this
+      · have hne := hfr c h
+        rw [dlookup_dset_ne hne]
+        exact ho.pending c h hr
+    · intro c h m hr
+      rcases List.mem_cons.mp h with rfl | h
+      · simp at hr
+      · have hne := hfr c h
+        rw [dlookup_dset_ne hne]
+        exact ho.answered c h m hr
+    · intro i t hl
+      by_cases hi : i = a.nextId
+      · subst hi
+        simp at hl
+        exact ⟨_, List.mem_cons_self, rfl, hl, rfl⟩
+      · rw [dlookup_dset_ne hi] at hl
+        obtain ⟨c, hcm, h1, h2, h3⟩ := ho.reqs i t hl
+        exact ⟨c, List.mem_cons_of_mem _ hcm, h1, h2, h3⟩
+
+theorem step_open_response {s : State} {a : CallSpec} (hb : Base s a) (hc : s.closed = false) (ho : Open s a)
+    (m : Msg) :
+    Rel (step s (.recvResponse m)).1 (CallSpec.step a (.recvResponse m)).1 ∧
+      obs (step s (.recvResponse m)).2 = (CallSpec.step a (.recvResponse m)).2 := by
+  simp only [step, CallSpec.step]
+  have hmap : (a.calls.map fun c => if c.id = m.callId ∧ c.resp = none then { c with resp := some m } else c)
+      = a.calls.map (upd m) := rfl
+  rw [hmap]
+  cases hl : dlookup m.callId s.requests with
+  | none =>
+    -- unknown or duplicate id: nothing changes on either side
+    have hid : a.calls.map (upd m) = a.calls := by
+      conv => rhs; rw [← List.map_id a.calls]
+      apply List.map_congr_left
+      intro c hcm
+      unfold upd
+      split
+      · rename_i h
+        have := (ho.pending c hcm h.2).1
+        rw [h.1, hl] at this; cases this
+      · rfl
+    rw [hid]
+    exact ⟨⟨hb, fun _ => ho, fun h => by simp [hc] at h⟩, by simp [obs, Out.observable]⟩
+  | some t =>
+    obtain ⟨c, hcm, hci, hct, hcr⟩ := ho.reqs _ _ hl
+    refine ⟨⟨⟨hb.nextId, hb.nextTask, hb.closed, ?_⟩, fun _ => ?_, fun h => by simp [hc] at h⟩, by simp [obs, Out.observable]⟩
+    · show s.frames = (a.calls.map (upd m)).map proj
+      rw [map_proj_upd]; exact hb.frames
+    · constructor
+      · intro c' h
+        obtain ⟨c0, h0, rfl⟩ := List.mem_map.mp h
+        simpa using ho.tasksLt c0 h0
+      · intro t' h
+        rcases List.mem_cons.mp h with rfl | h
+        · rw [← hct]; exact ho.tasksLt c hcm
+        · exact ho.firedLt t' h
+      · exact fun p h => ho.reqsLt p (mem_derase h)
+      · intro c1 h1 c2 h2 e
+        obtain ⟨d1, g1, rfl⟩ := List.mem_map.mp h1
+        obtain ⟨d2, g2, rfl⟩ := List.mem_map.mp h2
+        simp at e
+        rw [ho.tasksInj d1 g1 d2 g2 e]
+      · intro c1 h1 c2 h2 e
+        obtain ⟨d1, g1, rfl⟩ := List.mem_map.mp h1
+        obtain ⟨d2, g2, rfl⟩ := List.mem_map.mp h2
+        simp at e
+        rw [ho.idsInj d1 g1 d2 g2 e]
+      · -- still pending after the response: a call with another id
+        intro c' h hr
+        obtain ⟨c0, h0, rfl⟩ := List.mem_map.mp h
+        have hne : c0.id ≠ m.callId := by
+          intro e
+          have : c0.resp = none := by
+            cases hr0 : c0.resp with
+            | none => rfl
+            | some x => simp [upd, hr0] at hr
+          simp [upd, e, this] at hr
+        have hsame : upd m c0 = c0 := by simp [upd, hne]
+        rw [hsame] at hr ⊢
+        obtain ⟨p1, p2⟩ := ho.pending c0 h0 hr
+        refine ⟨by rw [dlookup_derase_ne hne]; exact p1, fun hm => ?_⟩
+        rcases List.mem_cons.mp hm with e | hm
+        · have : c0 = c := ho.tasksInj c0 h0 c hcm (by rw [e, hct])
+          exact hne (this ▸ hci)
+        · exact p2 hm
+      · intro c' h m' hr
+        obtain ⟨c0, h0, rfl⟩ := List.mem_map.mp h
+        by_cases hi : c0.id = m.callId
+        · -- the call this response answers
+          have hc0 : c0 = c := ho.idsInj c0 h0 c hcm (by rw [hi, hci])
+          subst hc0
+          have : upd m c0 = { c0 with resp := some m } := by simp [upd, hi, hcr]
+          rw [this] at hr ⊢
+          simp at hr; subst hr
+          simp only [hi]
+          exact ⟨by simp, by simp, by simp [hct]⟩
+        · have hsame : upd m c0 = c0 := by simp [upd, hi]
+          rw [hsame] at hr ⊢
+          obtain ⟨a1, a2, a3⟩ := ho.answered c0 h0 m' hr
+          exact ⟨by rw [dlookup_dset_ne hi]; exact a1, by rw [dlookup_derase_ne hi]; exact a2,
+            List.mem_cons_of_mem _ a3⟩
+      · intro i t' hl'
+        by_cases hi : i = m.callId
+        · subst hi; simp at hl'
+        · rw [dlookup_derase_ne hi] at hl'
+          obtain ⟨c0, h0, e1, e2, e3⟩ := ho.reqs i t' hl'
+          refine ⟨upd m c0, List.mem_map.mpr ⟨c0, h0, rfl⟩, by simpa using e1, by simpa using e2, ?_⟩
+          have : c0.id ≠ m.callId := e1 ▸ hi
+          simp [upd, this, e3]
+
+theorem step_open_cleanup {s : State} {a : CallSpec} (hb : Base s a) (hc : s.closed = false) (ho : Open s a) :
+    Rel (doCleanup s).1 { a with closed := true } ∧ obs (doCleanup s).2 = [] := by
+  simp only [doCleanup, hc, Bool.false_eq_true, if_false]
+  refine ⟨⟨⟨hb.nextId, hb.nextTask, rfl, hb.frames⟩, fun h => by simp at h, fun _ c hcm => ?_⟩, by simp [obs, Out.observable]⟩
+  show c.task ∈ s.requests.map (·.2) ++ s.fired
+  cases hr : c.resp with
+  | none =>
+    have := mem_of_dlookup (ho.pending c hcm hr).1
+    exact List.mem_append_left _ (List.mem_map.mpr ⟨_, this, rfl⟩)
+  | some m => exact List.mem_append_right _ (ho.answered c hcm m hr).2.2
+
+theorem step_open_wake {s : State} {a : CallSpec} (hb : Base s a) (hc : s.closed = false) (ho : Open s a) (t : Nat) :
+    Rel (step s (.wake t)).1 (CallSpec.step a (.wake t)).1 ∧
+      obs (step s (.wake t)).2 = (CallSpec.step a (.wake t)).2 := by
+  have hca : a.closed = false := by rw [← hb.closed]; exact hc
+  simp only [step, CallSpec.step]
+  rw [hb.frames, dlookup_proj]
+  cases hs : sfind t a.calls with
+  | none =>
+    simp only [Option.map_none]
+    exact ⟨⟨hb, fun _ => ho, fun h => by simp [hc] at h⟩, by simp [obs, Out.observable]⟩
+  | some c =>
+    obtain ⟨hcm, hct⟩ := sfind_some hs
+    simp only [Option.map_some, hc, hca, Bool.false_eq_true, if_false]
+    cases hr : c.resp with
+    | none =>
+      have hnf : t ∉ s.fired := hct ▸ (ho.pending c hcm hr).2
+      simp only [hnf, if_false]
+      exact ⟨⟨hb, fun _ => ho, fun h => by simp [hc] at h⟩, by simp [obs, Out.observable]⟩
+    | some m =>
+      obtain ⟨a1, a2, a3⟩ := ho.answered c hcm m hr
+      have htf : t ∈ s.fired := hct ▸ a3
+      simp only [htf, if_true, a1]
+      refine ⟨⟨⟨hb.nextId, hb.nextTask, rfl, derase_proj t a.calls⟩, fun _ => ?_, fun h => by simp at h⟩, by simp [obs, Out.observable]⟩
+      · have sub : ∀ c' ∈ a.calls.filter (·.task ≠ t), c' ∈ a.calls ∧ c'.task ≠ t := by
+          intro c' h; have := List.mem_filter.mp h; exact ⟨this.1, by simpa using this.2⟩
+        constructor
+        · exact fun c' h => ho.tasksLt c' (sub c' h).1
+        · exact ho.firedLt
+        · exact ho.reqsLt
+        · exact fun c1 h1 c2 h2 e => ho.tasksInj c1 (sub c1 h1).1 c2 (sub c2 h2).1 e
+        · exact fun c1 h1 c2 h2 e => ho.idsInj c1 (sub c1 h1).1 c2 (sub c2 h2).1 e
+        · exact fun c' h hr' => ho.pending c' (sub c' h).1 hr'
+        · intro c' h m' hr'
+          obtain ⟨b1, b2, b3⟩ := ho.answered c' (sub c' h).1 m' hr'
+          have hne : c'.id ≠ c.id := by
+            intro e
+            have := ho.idsInj c' (sub c' h).1 c hcm e
+            exact (sub c' h).2 (this ▸ hct)
+          exact ⟨by rw [dlookup_derase_ne hne]; exact b1, b2, b3⟩
+        · intro i t' hl
+          obtain ⟨c0, h0, e1, e2, e3⟩ := ho.reqs i t' hl
+          refine ⟨c0, List.mem_filter.mpr ⟨h0, ?_⟩, e1, e2, e3⟩
+          simp only [ne_eq, decide_not, Bool.not_eq_eq_eq_not, Bool.not_true, decide_eq_false_iff_not]
+          intro e
+          have := ho.tasksInj c0 h0 c hcm (by rw [e, hct])
+          rw [this, hr] at e3; cases e3
+
+/-- one step: the relation is preserved and the observable outputs agree -/
+theorem step_refines {s : State} {a : CallSpec} (hR : Rel s a) (op : Op) (hf : FreshId s op) :
+    Rel (step s op).1 (CallSpec.step a op).1 ∧ obs (step s op).2 = (CallSpec.step a op).2 := by
+  cases hc : s.closed with
+  | true => exact step_closed hR.base hc (hR.cls hc) op
+  | false =>
+    have ho := hR.opn hc
+    cases op with
+    | call nr =>
+      cases nr with
+      | true => exact step_open_call_noresp hR.base hc ho
+      | false => exact step_open_call hR.base hc ho (hf hc)
+    | recvResponse m => exact step_open_response hR.base hc ho m
+    | recvRequest => exact ⟨⟨hR.base, fun _ => ho, fun h => by simp [step, hc] at h⟩, by simp [step, CallSpec.step, obs]⟩
+    | eof => simpa [step, CallSpec.step] using step_open_cleanup hR.base hc ho
+    | cleanup => simpa [step, CallSpec.step] using step_open_cleanup hR.base hc ho
+    | wake t => exact step_open_wake hR.base hc ho t
+
+theorem obs_append (x y : List Out) : obs (x ++ y) = obs x ++ obs y := by simp [obs]
+
+/-- the implementation refines the specification on every op sequence with distinct live ids -/
+theorem run_refines {s : State} {a : CallSpec} (hR : Rel s a) (ops : List Op) (hd : distinctLive s ops = true) :
+    Rel (run s ops).1 (CallSpec.run a ops).1 ∧ obs (run s ops).2 = (CallSpec.run a ops).2 := by
+  induction ops generalizing s a with
+  | nil => exact ⟨hR, rfl⟩
+  | cons op rest ih =>
+    obtain ⟨hf, hd'⟩ := freshId_of_distinctLive s op rest hd
+    obtain ⟨hR1, ho1⟩ := step_refines hR op hf
+    obtain ⟨hR2, ho2⟩ := ih hR1 hd'
+    simp only [run, CallSpec.run]
+    exact ⟨hR2, by rw [obs_append, ho1, ho2]⟩
+
+
+
+/-! ## consequences -/
 
 theorem step_unknown_response (s : State) (m : Msg) (h : dlookup m.callId s.requests = none) :
     step s (.recvResponse m) = (s, [.warnInvalidCallId m.callId]) := by
   simp [step, h]
+
+/-- in a reachable open state a response whose id is not the id of an outstanding *unanswered* call
+    (never allocated, already answered, already completed) leaves the whole state unchanged -/
+theorem response_inert {s : State} {a : CallSpec} (hR : Rel s a) (hc : s.closed = false) (m : Msg)
+    (hno : ∀ c ∈ a.calls, c.id = m.callId → c.resp ≠ none) :
+    step s (.recvResponse m) = (s, [.warnInvalidCallId m.callId]) ∧
+      (CallSpec.step a (.recvResponse m)).1 = a := by
+  have ho := hR.opn hc
+  have hl : dlookup m.callId s.requests = none := by
+    cases h : dlookup m.callId s.requests with
+    | none => rfl
+    | some t =>
+      obtain ⟨c, hcm, e1, _, e3⟩ := ho.reqs _ _ h
+      exact absurd e3 (hno c hcm e1)
+  refine ⟨step_unknown_response s m hl, ?_⟩
+  simp only [CallSpec.step]
+  have hid : (a.calls.map fun c => if c.id = m.callId ∧ c.resp = none then { c with resp := some m } else c) = a.calls := by
+    conv => rhs; rw [← List.map_id a.calls]
+    apply List.map_congr_left
+    intro c hcm
+    split
+    · rename_i h; exact absurd h.2 (hno c hcm h.1)
+    · rfl
+  rw [hid]
+
+theorem step_closed_stays (s : State) (op : Op) (h : s.closed = true) : (step s op).1.closed = true := by
+  cases op with
+  | call nr => simp [step, h]
+  | recvResponse m => simp only [step]; split <;> simp [h]
+  | recvRequest => simp [step, h]
+  | eof => simp [step, doCleanup, h]
+  | cleanup => simp [step, doCleanup, h]
+  | wake t =>
+    simp only [step]
+    split
+    · exact h
+    · split <;> simp [h]
+
+/-- once closed, the relation survives any further ops (no hypothesis on ids needed) -/
+theorem run_closed {s : State} {a : CallSpec} (hR : Rel s a) (hc : s.closed = true) (ops : List Op) :
+    Rel (run s ops).1 (CallSpec.run a ops).1 ∧ (run s ops).1.closed = true ∧
+      obs (run s ops).2 = (CallSpec.run a ops).2 := by
+  induction ops generalizing s a with
+  | nil => exact ⟨hR, hc, rfl⟩
+  | cons op rest ih =>
+    obtain ⟨hR1, ho1⟩ := step_closed hR.base hc (hR.cls hc) op
+    obtain ⟨hR2, hc2, ho2⟩ := ih hR1 (step_closed_stays s op hc)
+    simp only [run, CallSpec.run]
+    exact ⟨hR2, hc2, by rw [obs_append, ho1, ho2]⟩
+
+theorem dlookup_of_mem_fst {α : Type} {t : Nat} {v : α} {l : List (Nat × α)} (h : (t, v) ∈ l) :
+    ∃ v', dlookup t l = some v' := by
+  induction l with
+  | nil => cases h
+  | cons p r ih =>
+    obtain ⟨k, w⟩ := p
+    by_cases hk : k = t
+    · exact ⟨w, by simp [dlookup, hk]⟩
+    · rcases List.mem_cons.mp h with e | h
+      · cases e; exact absurd rfl hk
+      · obtain ⟨v', hv⟩ := ih h; exact ⟨v', by simp [dlookup, hk, hv]⟩
+
+/-- closed: every suspended call has its event set, and resuming it raises "closed" (never a response) -/
+theorem closed_frames_ready {s : State} {a : CallSpec} (hR : Rel s a) (hc : s.closed = true) (p : Nat × Nat)
+    (hp : p ∈ s.frames) :
+    p.1 ∈ s.fired ∧ (step s (.wake p.1)).2 = [.done p.1 .closed] := by
+  have hf : p.1 ∈ s.fired := by
+    rw [hR.base.frames] at hp
+    obtain ⟨c, hcm, rfl⟩ := List.mem_map.mp hp
+    exact hR.cls hc c hcm
+  obtain ⟨id, hl⟩ := dlookup_of_mem_fst (t := p.1) (v := p.2) (l := s.frames) hp
+  exact ⟨hf, by simp [step, hl, hf, hc]⟩
+
+/-- open: a call whose response has arrived resumes with exactly that response -/
+theorem wake_answered {s : State} {a : CallSpec} (hR : Rel s a) (hc : s.closed = false) (c : SCall)
+    (hcm : c ∈ a.calls) (m : Msg) (hr : c.resp = some m) :
+    (step s (.wake c.task)).2 = [.done c.task (outcomeOf m)] := by
+  have ho := hR.opn hc
+  obtain ⟨a1, _, a3⟩ := ho.answered c hcm m hr
+  have hfind : sfind c.task a.calls = some c := by
+    cases h : sfind c.task a.calls with
+    | none => exact absurd rfl (sfind_none h c hcm)
+    | some c' =>
+      obtain ⟨h1, h2⟩ := sfind_some h
+      rw [ho.tasksInj c' h1 c hcm h2]
+  simp [step, hR.base.frames, dlookup_proj, hfind, a3, hc, a1]
+
+/-- open: a call without response is not resumable, and a response carrying its id makes it answered by it -/
+theorem pending_not_ready {s : State} {a : CallSpec} (hR : Rel s a) (hc : s.closed = false) (c : SCall)
+    (hcm : c ∈ a.calls) (hr : c.resp = none) : c.task ∉ s.fired :=
+  ((hR.opn hc).pending c hcm hr).2
+
+/-! ### H-ids holds whenever the counter cannot wrap within the run -/
+def isCall : Op → Bool
+  | .call _ => true
+  | _ => false
+
+def nCalls (ops : List Op) : Nat := (ops.filter isCall).length
+
+theorem distinctLive_of_small (s : State) (ops : List Op) (h1 : ∀ p ∈ s.frames, p.2 < s.nextId)
+    (h2 : s.nextId + nCalls ops < 4294967296) : distinctLive s ops = true := by
+  induction ops generalizing s with
+  | nil => rfl
+  | cons op rest ih =>
+    simp only [distinctLive, Bool.and_eq_true]
+    cases op with
+    | call nr =>
+      have hn : nCalls (Op.call nr :: rest) = nCalls rest + 1 := by simp [nCalls, isCall, List.filter]
+      rw [hn] at h2
+      have hmod : (s.nextId + 1) % 4294967296 = s.nextId + 1 := Nat.mod_eq_of_lt (by omega)
+      constructor
+      · cases nr with
+        | true => rfl
+        | false =>
+          cases hc : s.closed with
+          | true => rfl
+          | false =>
+            simp only [Bool.false_or, Bool.not_eq_true', List.contains_eq_mem, decide_eq_false_iff_not]
+            intro hm
+            obtain ⟨p, hp, e⟩ := List.mem_map.mp hm
+            have := h1 p hp; omega
+      · apply ih
+        · intro p hp
+          cases hc : s.closed with
+          | true => simp [step, hc] at hp ⊢; have := h1 p hp; omega
+          | false =>
+            cases nr with
+            | true => simp [step, hc, hmod] at hp ⊢; have := h1 p hp; omega
+            | false =>
+              simp [step, hc, hmod] at hp ⊢
+              rcases hp with rfl | hp
+              · simp
+              · have := h1 p hp; omega
+        · cases hc : s.closed with
+          | true => simp [step, hc]; omega
+          | false => cases nr <;> simp [step, hc, hmod] <;> omega
+    | recvResponse m =>
+      refine ⟨rfl, ih _ ?_ ?_⟩
+      · simp only [step]; split <;> exact h1
+      · have : nCalls (Op.recvResponse m :: rest) = nCalls rest := by simp [nCalls, isCall, List.filter]
+        rw [this] at h2
+        simp only [step]; split <;> exact h2
+    | recvRequest =>
+      have : nCalls (Op.recvRequest :: rest) = nCalls rest := by simp [nCalls, isCall, List.filter]
+      rw [this] at h2
+      exact ⟨rfl, ih _ (by simpa [step] using h1) (by simpa [step] using h2)⟩
+    | eof =>
+      have : nCalls (Op.eof :: rest) = nCalls rest := by simp [nCalls, isCall, List.filter]
+      rw [this] at h2
+      refine ⟨rfl, ih _ ?_ ?_⟩ <;> simp only [step, doCleanup] <;> split <;> assumption
+    | cleanup =>
+      have : nCalls (Op.cleanup :: rest) = nCalls rest := by simp [nCalls, isCall, List.filter]
+      rw [this] at h2
+      refine ⟨rfl, ih _ ?_ ?_⟩ <;> simp only [step, doCleanup] <;> split <;> assumption
+    | wake t =>
+      have : nCalls (Op.wake t :: rest) = nCalls rest := by simp [nCalls, isCall, List.filter]
+      rw [this] at h2
+      refine ⟨rfl, ih _ ?_ ?_⟩
+      · simp only [step]
+        split
+        · exact h1
+        · split
+          · split
+            · exact fun p hp => h1 p (mem_derase hp)
+            · split <;> exact fun p hp => h1 p (mem_derase hp)
+          · exact h1
+      · simp only [step]
+        split
+        · exact h2
+        · split
+          · split
+            · exact h2
+            · split <;> exact h2
+          · exact h2
+
+/-! ### no cross-talk: history of the specification machine -/
+def HistInv (a : CallSpec) (pre : List Op) (preOuts : List Out) : Prop :=
+  ∀ c ∈ a.calls, Out.sent c.task c.id ∈ preOuts ∧
+    ∀ m, c.resp = some m → Op.recvResponse m ∈ pre ∧ m.callId = c.id
+
+/-- a completed call: closed, response-less, or the outcome of a received response with the id it sent -/
+def Explained (ops : List Op) (outs : List Out) (t : Nat) (o : Outcome) : Prop :=
+  o = .closed ∨ o = .none ∨
+    ∃ id m, Out.sent t id ∈ outs ∧ Op.recvResponse m ∈ ops ∧ m.callId = id ∧ o = outcomeOf m
+
+theorem spec_step_hist (a : CallSpec) (op : Op) (pre : List Op) (preOuts : List Out) (h : HistInv a pre preOuts) :
+    HistInv (CallSpec.step a op).1 (pre ++ [op]) (preOuts ++ (CallSpec.step a op).2) ∧
+    ∀ t o, Out.done t o ∈ (CallSpec.step a op).2 → Explained pre preOuts t o := by
+  cases op with
+  | call nr =>
+    simp only [CallSpec.step]
+    split
+    · refine ⟨fun c hc => ?_, fun t o hd => ?_⟩
+      · obtain ⟨h1, h2⟩ := h c hc
+        exact ⟨List.mem_append_left _ h1, fun m hm => ⟨List.mem_append_left _ (h2 m hm).1, (h2 m hm).2⟩⟩
+      · simp at hd; exact .inl hd.2
+    · cases nr with
+      | true =>
+        refine ⟨fun c hc => ?_, fun t o hd => ?_⟩
+        · obtain ⟨h1, h2⟩ := h c hc
+          exact ⟨List.mem_append_left _ h1, fun m hm => ⟨List.mem_append_left _ (h2 m hm).1, (h2 m hm).2⟩⟩
+        · simp at hd; exact .inr (.inl hd.2)
+      | false =>
+        refine ⟨fun c hc => ?_, fun t o hd => by simp at hd⟩
+        simp only [Bool.false_eq_true, if_false] at hc ⊢
+        rcases List.mem_cons.mp hc with rfl | hc
+        · exact ⟨by simp, fun m hm => by simp at hm⟩
+        · obtain ⟨h1, h2⟩ := h c hc
+          exact ⟨List.mem_append_left _ h1, fun m hm => ⟨List.mem_append_left _ (h2 m hm).1, (h2 m hm).2⟩⟩
+  | recvResponse m =>
+    simp only [CallSpec.step]
+    refine ⟨fun c hc => ?_, fun t o hd => by simp at hd⟩
+    obtain ⟨c0, h0, rfl⟩ := List.mem_map.mp hc
+    obtain ⟨h1, h2⟩ := h c0 h0
+    split
+    · rename_i hu
+      exact ⟨by simpa using h1, fun m' hm' => by simp at hm'; subst hm'; exact ⟨by simp, hu.1.symm⟩⟩
+    · exact ⟨by simpa using h1, fun m' hm' => ⟨List.mem_append_left _ (h2 m' hm').1, (h2 m' hm').2⟩⟩
+  | recvRequest =>
+    refine ⟨fun c hc => ?_, fun t o hd => by simp [CallSpec.step] at hd⟩
+    obtain ⟨h1, h2⟩ := h c hc
+    exact ⟨by simpa [CallSpec.step] using h1, fun m hm => ⟨List.mem_append_left _ (h2 m hm).1, (h2 m hm).2⟩⟩
+  | eof =>
+    refine ⟨fun c hc => ?_, fun t o hd => by simp [CallSpec.step] at hd⟩
+    obtain ⟨h1, h2⟩ := h c hc
+    exact ⟨by simpa [CallSpec.step] using h1, fun m hm => ⟨List.mem_append_left _ (h2 m hm).1, (h2 m hm).2⟩⟩
+  | cleanup =>
+    refine ⟨fun c hc => ?_, fun t o hd => by simp [CallSpec.step] at hd⟩
+    obtain ⟨h1, h2⟩ := h c hc
+    exact ⟨by simpa [CallSpec.step] using h1, fun m hm => ⟨List.mem_append_left _ (h2 m hm).1, (h2 m hm).2⟩⟩
+  | wake t =>
+    have keep : ∀ (l : List Out), HistInv { a with calls := a.calls.filter (·.task ≠ t) } (pre ++ [Op.wake t]) (preOuts ++ l) := by
+      intro l c hc
+      obtain ⟨h1, h2⟩ := h c (List.mem_filter.mp hc).1
+      exact ⟨List.mem_append_left _ h1, fun m hm => ⟨List.mem_append_left _ (h2 m hm).1, (h2 m hm).2⟩⟩
+    have keep' : ∀ (l : List Out), HistInv a (pre ++ [Op.wake t]) (preOuts ++ l) := by
+      intro l c hc
+      obtain ⟨h1, h2⟩ := h c hc
+      exact ⟨List.mem_append_left _ h1, fun m hm => ⟨List.mem_append_left _ (h2 m hm).1, (h2 m hm).2⟩⟩
+    simp only [CallSpec.step]
+    cases hs : sfind t a.calls with
+    | none => exact ⟨keep' _, fun t' o hd => by simp at hd⟩
+    | some c =>
+      obtain ⟨hcm, hct⟩ := sfind_some hs
+      simp only
+      split
+      · exact ⟨keep _, fun t' o hd => by simp at hd; exact .inl hd.2⟩
+      · cases hr : c.resp with
+        | none => exact ⟨keep' _, fun t' o hd => by simp at hd⟩
+        | some m =>
+          refine ⟨keep _, fun t' o hd => ?_⟩
+          simp at hd
+          obtain ⟨rfl, rfl⟩ := hd
+          obtain ⟨h1, h2⟩ := h c hcm
+          exact .inr (.inr ⟨c.id, m, hct ▸ h1, (h2 m hr).1, (h2 m hr).2, rfl⟩)
+
+theorem spec_run_hist (a : CallSpec) (ops pre : List Op) (preOuts : List Out) (h : HistInv a pre preOuts) :
+    ∀ t o, Out.done t o ∈ (CallSpec.run a ops).2 →
+      Explained (pre ++ ops) (preOuts ++ (CallSpec.run a ops).2) t o := by
+  induction ops generalizing a pre preOuts with
+  | nil => intro t o hd; simp [CallSpec.run] at hd
+  | cons op rest ih =>
+    intro t o hd
+    obtain ⟨hI, hS⟩ := spec_step_hist a op pre preOuts h
+    simp only [CallSpec.run] at hd ⊢
+    rcases List.mem_append.mp hd with hd | hd
+    · rcases hS t o hd with e | e | ⟨id, m, s1, s2, s3, s4⟩
+      · exact .inl e
+      · exact .inr (.inl e)
+      · exact .inr (.inr ⟨id, m, List.mem_append_left _ s1, List.mem_append_left _ s2, s3, s4⟩)
+    · rcases ih _ _ _ hI t o hd with e | e | ⟨id, m, s1, s2, s3, s4⟩
+      · exact .inl e
+      · exact .inr (.inl e)
+      · refine .inr (.inr ⟨id, m, ?_, ?_, s3, s4⟩)
+        · simpa [List.append_assoc] using s1
+        · simpa [List.append_assoc] using s2
+
+theorem mem_obs {x : Out} {l : List Out} : x ∈ obs l ↔ x ∈ l ∧ x.observable = true := by
+  simp [obs, List.mem_filter]
+
+/-- a later response with the same id never replaces the first one -/
+theorem first_response_wins (m m' : Msg) (c : SCall) (h : c.id = m.callId) : upd m' (upd m c) = upd m c := by
+  unfold upd
+  cases hr : c.resp <;> simp [h, hr]
 
 end Nx.RmcClient
